@@ -142,7 +142,20 @@ def build(tier="quick", seed=0):
         avro = L.import_module("flow.record.adapter.avro")
         return it.call(avro.g["schema_to_descriptor"], [{"namespace": "", "name": name_v, "fields": [{"name": f, "type": ["string", "null"]} for t, f in fields_v]}], {})
 
-    ENTRIES = {"api": entry_api, "stream": entry_stream, "json": entry_json, "avro_doc": entry_avro_doc, "avro_schema": entry_avro_schema}
+    def entry_grouped_api(name_v, fields_v):
+        M = it.call(RD, ["c06/member", [("string", "s")]], {})
+        return it.call(base.g["GroupedRecord"], [name_v, [it.call(M, [], {"s": "x"})]], {})
+
+    def entry_grouped_stream(name_v, fields_v):
+        # a grouped-record frame (sub-type 0x12) naming the group; its one member is of a registered, valid type
+        M = it.call(RD, ["c06/member", [("string", "s")]], {})
+        packer = it.call(pk.g["RecordPacker"], [], {})
+        it.call(it.getattr_(packer, "register"), [M], {})
+        ident = it.getattr_(M, "identifier")
+        tree = ("arr", [("leaf", 0x12), ("arr", [("leaf", name_v), ("arr", [("arr", [("arr", [("leaf", ident[0]), ("leaf", ident[1])]), ("arr", [("leaf", "x"), ("leaf", None), ("leaf", None), ("leaf", None), ("leaf", 1)])])])])])
+        return it.call(it.getattr_(packer, "unpack_obj"), [14, MPBytes(tree)], {})
+
+    ENTRIES = {"api": entry_api, "stream": entry_stream, "json": entry_json, "avro_doc": entry_avro_doc, "avro_schema": entry_avro_schema, "grouped_api": entry_grouped_api, "grouped_stream": entry_grouped_stream}
     SHAPES = {
         "one_field": lambda: [(SStr(tn), SStr(fn))],
         "no_field": lambda: [],
@@ -236,6 +249,8 @@ def build(tier="quick", seed=0):
                     tname = None  # derived name: only its shape is checked
                 fl = {"one_field": [fn], "no_field": [], "two_fields": [fn, fn2], "same_field_twice": [fn]}[shape]
                 declared = [solver.zs(mdl.eval(f, model_completion=True)) for f in fl]
+                if entry.startswith("grouped"):
+                    declared = ["s"]  # the flat descriptor of the group: the field of its (valid) member
                 if entry == "avro_schema":
                     declared = [f for f in declared if not f.startswith("_")]  # schema fields with a leading underscore are metadata and are skipped by the reader
                 complaints = validate_generated_source(text, tname, declared)
@@ -248,12 +263,15 @@ def build(tier="quick", seed=0):
             return r
 
         return Obligation(name, run, replay=lambda w: {"call": "c06_definition", "args": w}, functions=FU_GATE + {"stream": ("flow.record.packer:RecordPacker.unpack_obj", "flow.record.base:RecordDescriptor._unpack"), "json": ("flow.record.jsonpacker:JsonRecordPacker.unpack_obj",),
-                                                                                                              "avro_doc": ("flow.record.adapter.avro:schema_to_descriptor",), "avro_schema": ("flow.record.adapter.avro:schema_to_descriptor", "flow.record.adapter.avro:avro_type_to_flow_type"), "api": ()}[entry])
+                                                                                                              "avro_doc": ("flow.record.adapter.avro:schema_to_descriptor",), "avro_schema": ("flow.record.adapter.avro:schema_to_descriptor", "flow.record.adapter.avro:avro_type_to_flow_type"), "api": (),
+                                                                                                              "grouped_api": ("flow.record.base:GroupedRecord.__init__",), "grouped_stream": ("flow.record.packer:RecordPacker.unpack_obj", "flow.record.base:GroupedRecord.__init__")}[entry])
 
     for entry in ENTRIES:
         for shape in SHAPES:
             if entry != "api" and shape in ("same_field_twice",):
                 continue
+            if entry.startswith("grouped") and shape != "no_field":
+                continue  # (the name of the group is the only text a grouped record defines itself; its members are definitions of their own)
             if shape == "one_field" and entry != "avro_schema":
                 for part in range(NPART):
                     pack.add(make_gate(entry, shape, part))
@@ -316,6 +334,30 @@ def build(tier="quick", seed=0):
         if extra:
             return Result("C06.exec_sites", "undecided", f"new dynamic-code site(s) {sorted(extra)}: whether text from a definition can reach them is not decided by this pack")
         return Result("C06.exec_sites", "proved", paths=len(found))
+
+    # ---- 4b. what a reader has already accepted never lets a later definition in unchecked: crafted descriptor frames whose name and
+    #          unseparated field text (and therefore identifier hash) equal those of a legitimate definition read before
+    LEGIT = ("c06/t", [("uint16", "a"), ("string", "b")])
+    CRAFTED = [[("16bstring", "auint")], [("int16", "au"), ("string", "b")], [("uint16", "a"), ("ring", "bst")], [("uint16", "a"), ("g", "bstrin")]]
+    for crafted in CRAFTED:
+        name = f"C06.history[after {LEGIT[1]}, a frame defining {crafted} (same hash text)]"
+
+        def th(crafted=crafted):
+            def frame(fields):
+                return MPBytes(("arr", [("leaf", 2), ("arr", [("leaf", LEGIT[0]), ("arr", [("arr", [("leaf", t), ("leaf", f)]) for t, f in fields])])]))
+
+            packer = it.call(pk.g["RecordPacker"], [], {})
+            d1 = it.call(it.getattr_(packer, "unpack_obj"), [14, frame(LEGIT[1])], {})
+            it.call(it.getattr_(packer, "register"), [d1], {})  # (what RecordStreamReader.__iter__ does with a descriptor frame)
+            try:
+                d2 = it.call(it.getattr_(packer, "unpack_obj"), [14, frame(crafted)], {})
+            except PyRaise as e:
+                return "rejected", e.cls_name
+            return "accepted", [tuple(f) for f in it.call(it.getattr_(d2, "get_field_tuples"), [], {})] if isinstance(d2, PObj) else repr(d2)
+
+        pack.add(Obligation(name, lambda tier, name=name, th=th, crafted=crafted: prove_paths(name, th, lambda p: (p.value[0] == "rejected", f"a definition with a field type outside the whitelist was accepted (as {p.value[1]!r}) because a definition with the same identifier was read before"), lambda m, p: {}),
+                            replay=lambda w, crafted=crafted: {"call": "c06_history", "args": {"legit": [list(f) for f in LEGIT[1]], "crafted": [list(f) for f in crafted]}}, functions=("flow.record.packer:RecordPacker.unpack_obj", "flow.record.packer:RecordPacker.register", "flow.record.base:RecordDescriptor._unpack"),
+                            mode="concrete two-frame histories (representative collisions of the unseparated hash text)"))
 
     pack.add(Obligation("C06.exec_sites", run_sites, functions=(), mode="structural"))
 
